@@ -108,11 +108,23 @@ class Built:
         self.nodes = {nd["id"]: build_node(nd, self.prefix) for nd in sc["nodes"]}
         self.desc = {nd["id"]: nd for nd in sc["nodes"]}
         self.models = []
+        self._fb_done = set()
         self.extra = {}      # id -> real Concat node
         self.extra_dim = {}
         for md in sc["models"]:
             if len(md["nodes"]) == 1 and not md["edges"]:
                 self.models.append(self.nodes[md["nodes"][0]])
+            elif md.get("build") == "esn":
+                # the ESN convenience node over (reservoir, readout); feedback readout -> reservoir either made by the constructor
+                # (feedback=True) or wired by hand before the nodes are handed over
+                from reservoirpy.nodes import ESN
+                r, o = md["nodes"]
+                fb = self.desc[r].get("fb")
+                if fb is not None and md.get("wire") == "hand":
+                    self.nodes[r] <<= self.nodes[o]
+                self.models.append(ESN(reservoir=self.nodes[r], readout=self.nodes[o], feedback=fb is not None and md.get("wire") != "hand",
+                                       name="%s_m%d" % (self.prefix, len(self.models))))
+                self._fb_done.add(r)
             elif md.get("build") == "iand":
                 # built in place: the sub-model over the first nodes, then  model &= <the rest>  (Model.update_graph)
                 cut = md["cut"]
@@ -133,7 +145,7 @@ class Built:
         # feedback connections (after the models exist: a sender may be a model)
         for nd in sc["nodes"]:
             fb = nd.get("fb")
-            if fb is None:
+            if fb is None or nd["id"] in self._fb_done:
                 continue
             if "node" in fb:
                 sender = self.nodes[fb["node"]]
@@ -228,7 +240,9 @@ def run_history(sc):
                     x = o["x"]
                     res = m.call({b.all_nodes()[int(i)].name: fl([v]) for i, v in x.items()} if isinstance(x, dict) else fl([x]), **kw)
                 _, _, mouts = b.model_struct(o["model"])
-                if isinstance(res, dict):
+                if isinstance(res, dict) and sc["models"][o["model"]].get("build") == "esn":
+                    arrs = [np.asarray(res["readout"])]      # ESN.run keys its returned states by role
+                elif isinstance(res, dict):
                     arrs = [np.asarray(res[b.all_nodes()[i].name]) for i in mouts]
                 else:
                     arrs = [np.asarray(res)]
